@@ -77,10 +77,10 @@ Proof.
   split; [|split; [|split]].
   - (* lz *)
     rewrite !undo_split. unfold undo_dirt, undo_core. split; [|split; [|split]].
-    + destruct e as [a p|a k p|a| |a p pb]; cbn; try (destruct (Hpres a eq_refl) as (o & -> & ->)); reflexivity.
-    + destruct e as [a p|a k p|a| |a p pb]; cbn; try (destruct (Hpres a eq_refl) as (o & -> & ->)); cbn; rewrite ?Hd; reflexivity.
-    + destruct e as [a p|a k p|a| |a p pb]; cbn; try (destruct (Hpres a eq_refl) as (o & -> & ->)); cbn; rewrite ?Hl; reflexivity.
-    + intros b. destruct e as [a p|a k p|a| |a p pb]; cbn.
+    + destruct e as [a p|a k p|a| |a p pb|a pv]; cbn; try (destruct (Hpres a eq_refl) as (o & -> & ->)); reflexivity.
+    + destruct e as [a p|a k p|a| |a p pb|a pv]; cbn; try (destruct (Hpres a eq_refl) as (o & -> & ->)); cbn; rewrite ?Hd; reflexivity.
+    + destruct e as [a p|a k p|a| |a p pb|a pv]; cbn; try (destruct (Hpres a eq_refl) as (o & -> & ->)); cbn; rewrite ?Hl; reflexivity.
+    + intros b. destruct e as [a p|a k p|a| |a p pb|a pv]; cbn.
       * destruct (Hpres a eq_refl) as (o & -> & ->). cbn.
         destruct (decide (a = b)) as [->|]; [left; by rewrite !lookup_insert|rewrite !lookup_insert_ne by done; apply Ho].
       * destruct (Hpres a eq_refl) as (o & -> & ->). cbn.
@@ -89,12 +89,13 @@ Proof.
       * apply Ho.
       * destruct (Hpres a eq_refl) as (o & -> & ->). cbn.
         destruct (decide (a = b)) as [->|]; [left; by rewrite !lookup_insert|rewrite !lookup_insert_ne by done; apply Ho].
+      * destruct (decide (a = b)) as [->|]; [left; by rewrite !lookup_insert|rewrite !lookup_insert_ne by done; apply Ho].
   - (* epd *)
     unfold epd. rewrite journal_undo. cbn [journal].
     assert (Hdom : dom (objs (undo (mksdb (objs D) r (dirties D) (logs D)) e)) =
                    match e with JCreate a => dom (objs D) ∖ {[a]} | _ => dom (objs D) end).
     { rewrite undo_split. unfold undo_dirt, undo_core.
-      destruct e as [a p|a k p|a| |a p pb]; cbn.
+      destruct e as [a p|a k p|a| |a p pb|a pv]; cbn.
       - destruct (Hpres a eq_refl) as (o & Hoa & _). rewrite Hoa. cbn. rewrite dom_insert_L.
         assert (a ∈ dom (objs D)) by (apply elem_of_dom; eauto). set_solver.
       - destruct (Hpres a eq_refl) as (o & Hoa & _). rewrite Hoa. cbn. rewrite dom_insert_L.
@@ -102,13 +103,15 @@ Proof.
       - by rewrite dom_delete_L.
       - done.
       - destruct (Hpres a eq_refl) as (o & Hoa & _). rewrite Hoa. cbn. rewrite dom_insert_L.
+        assert (a ∈ dom (objs D)) by (apply elem_of_dom; eauto). set_solver.
+      - destruct (Hpres a eq_refl) as (o & Hoa & _). rewrite dom_insert_L.
         assert (a ∈ dom (objs D)) by (apply elem_of_dom; eauto). set_solver. }
     rewrite Hdom. exact Hep2.
   - (* cntd *)
     intros b. rewrite journal_undo. cbn [journal]. specialize (Hc b). rewrite Hj in Hc. cbn [cnt] in Hc.
     rewrite undo_split. unfold undo_dirt.
     assert (Hdc : dirties (undo_core (mksdb (objs D) r (dirties D) (logs D)) e) = dirties D).
-    { unfold undo_core. destruct e as [a0 p|a0 k p|a0| |a0 p pb]; cbn; try destruct (objs D !! a0); reflexivity. }
+    { unfold undo_core. destruct e as [a0 p|a0 k p|a0| |a0 p pb|a0 pv]; cbn; try destruct (objs D !! a0); reflexivity. }
     destruct (dirtied e) as [a|] eqn:Hde; cbn; rewrite ?Hdc.
     + destruct (decide (Some a = Some b)) as [Heq|Hneq].
       * inversion Heq; subst b.
@@ -287,6 +290,8 @@ Lemma do_call_as_get_or_new order W D caller target value run :
   if negb (value =? 0) && (cbal (load W D caller) caller <? value) then ((W, load W D caller), Fail) else
   let D0 := if value =? 0 then D else load W D caller in
   let snap := snapshot D0 in
+  if negb false && match objs (load W D0 target) !! target with None => true | Some _ => false end && (value =? 0) && negb (is_precompile target)
+  then ((W, D0), Ok) else
   let D3 := add_bal W (sub_bal W (get_or_new W D0 target) caller value) target value in
   let '((W4, D4), oc) := run (W, D3) in
   match oc with
@@ -294,6 +299,16 @@ Lemma do_call_as_get_or_new order W D caller target value run :
   | Fail => ((W4, revert_to D4 snap), Fail)
   end.
 Proof. reflexivity. Qed.
+
+Lemma sim_absent_after_load W D D' t : sim W D D' ->
+  match objs (load W D t) !! t with None => true | Some _ => false end =
+  match objs (load W D' t) !! t with None => true | Some _ => false end.
+Proof.
+  intros Hsim. pose proof (sim_load W D D' t Hsim) as Hl.
+  destruct (objs (load W D t) !! t) as [o|] eqn:E; [by rewrite (sim_obj _ _ _ _ _ Hl E)|].
+  destruct Hl as ((_ & _ & _ & Ho) & _). destruct (Ho t) as [Heq|(_ & Hin & _)]; [by rewrite <- Heq, E|].
+  exfalso. destruct (load_loads W D t Hin) as [x Hx]. congruence.
+Qed.
 
 Lemma do_call_lock order W D D' caller target value run :
   sim W D D' ->
@@ -310,7 +325,9 @@ Proof.
   set (D0' := if value =? 0 then D' else load W D' caller) in *.
   assert (Hsnap : snapshot D0 = snapshot D0').
   { unfold snapshot. destruct H0 as ((Hj & _) & _). by rewrite Hj. }
-  rewrite Hsnap.
+  rewrite Hsnap. rewrite (sim_absent_after_load W D0 D0' target H0).
+  destruct (negb false && match objs (load W D0' target) !! target with None => true | Some _ => false end && (value =? 0) && negb (is_precompile target)).
+  { split; [done|]. split; [done|]. split; [done|]. exact H0. }
   destruct (sim_get_or_new W D0 D0' target H0) as [H2 _].
   pose proof (sim_add_bal W _ _ target value (sim_add_bal W _ _ caller (- value) H2)) as H3.
   specialize (Hrun _ _ H3). unfold sub_bal.
@@ -347,7 +364,7 @@ Theorem pure_instr_lock : forall i, pure i = true ->
   forall order o self W D D', sim W D D' ->
     lock W (exec_instr order o self i (W, D)) (exec_instr order o self i (W, D')).
 Proof.
-  induction i as [k v| | |a|b|t v c r body IH|p v c r] using instr_ind'; intros Hp order o self W D D' Hsim;
+  induction i as [k v| | |a|b|t v c r body IH|ad v c r sc body|p v c r] using instr_ind'; intros Hp order o self W D D' Hsim;
     cbn [exec_instr].
   - mklock. by apply sim_set_state.
   - mklock. by apply sim_add_log.
@@ -372,6 +389,7 @@ Proof.
     apply (lock_seq W (exec_instr order o t x (W, D1)) (exec_instr order o t x (W, D1'))).
     + by apply IHx.
     + intros D2 D2' Hs2. by apply IHb.
+  - discriminate.
   - discriminate.
 Qed.
 
